@@ -13,7 +13,13 @@ const LITS: [&str; 10] = ["a", "b", "c", "d", "ab", "-", "1", "x", "", ""];
 const ODD_LITS: [&str; 8] = ["[", ">1>", "<2>", "<", "*", "?", "[0-9]", ">=1<2<3"];
 
 /// (tail text in the pattern, concrete suffixes for names: matching first)
-const TAILS: [(&str, &[&str]); 9] = [
+const TAILS: [(&str, &[&str]); 13] = [
+    // the same token twice in one tail: a name that fits the text up to the
+    // first occurrence only is not matched by the expansion
+    ("-[0-9]*-doc-[0-9]*", &["-1.0-doc-2", "-1.0", "-doc-1", "-1.0-doc-"]),
+    ("-[0-9]*{-doc,-man}-[0-9]*", &["-1-man-2", "-1", "-1-doc", "-1-doc-x"]),
+    (">=1>=1", &["-1", "-2"]),
+    ("-1.0-1.0", &["-1.0-1.0", "-1.0"]),
     ("", &["", "x"]),
     ("-1.0", &["-1.0", "-1.1"]),
     ("-[0-9]*", &["-2.0", "-x"]),
@@ -111,7 +117,26 @@ fn mispairings(p: &str) -> Vec<String> {
 
 fn mutate(r: &mut Rng, s: &str) -> String {
     let mut c: Vec<char> = s.chars().collect();
-    match r.below(4) {
+    match r.below(7) {
+        4 if c.len() >= 2 => {
+            // a piece cut out of the middle (what is left may still begin and
+            // end like an expansion)
+            let i = r.below(c.len() - 1);
+            let n = r.range(1, 4).min(c.len() - i);
+            c.drain(i..i + n);
+        }
+        5 if c.len() >= 2 => {
+            // truncated at a '-' or anywhere
+            let dashes: Vec<usize> = (1..c.len()).filter(|&i| c[i] == '-').collect();
+            let at = if dashes.is_empty() { r.range(1, c.len() - 1) } else { *r.pick(&dashes) };
+            c.truncate(at);
+        }
+        6 if !c.is_empty() => {
+            // a leading piece repeated
+            let n = r.range(1, c.len().min(4));
+            let head: Vec<char> = c[..n].to_vec();
+            c.splice(0..0, head);
+        }
         0 if !c.is_empty() => {
             let i = r.below(c.len());
             c.remove(i);
@@ -281,6 +306,10 @@ pub fn run(cx: &mut Cx) {
             }
             let stripped: String = g.prefix.chars().filter(|c| !matches!(c, '{' | '}' | ',')).collect();
             names.push(format!("{stripped}{}", sufs[0]));
+            // what stands around the groups, joined (shorter than any expansion)
+            for j in opat::joint_names(&p).into_iter().take(16) {
+                names.push(j.replace("[0-9]*", "1").replace(">=", "-").replace('>', "-").replace('<', "-"));
+            }
         }
         names.push(String::new());
         names.sort();
